@@ -17,6 +17,15 @@ import (
 )
 
 func (g *gen) cleanStr() string {
+	if g.longLeft > 0 && g.coin(0.01) {
+		g.longLeft--
+		// a very long (still metacharacter-free) value: rows of 64 KiB and more are rows like any other
+		b := make([]byte, 65000+g.r.Intn(9000))
+		for i := range b {
+			b[i] = "abcXYZ019_. -#:"[g.r.Intn(15)]
+		}
+		return string(b)
+	}
 	switch g.r.Intn(6) {
 	case 0:
 		return ""
@@ -32,6 +41,14 @@ func (g *gen) cleanStr() string {
 	}
 }
 func (g *gen) unixTime() time.Time {
+	t := g.unixSeconds()
+	if g.coin(0.4) {
+		// instants are nanosecond-precise; the exported value is the Unix second containing the instant (floor, also before 1970)
+		t = t.Add(time.Duration(g.pick64([]int64{1, 999999999, 500000000, 1000000, 250000000, int64(g.r.Intn(1000000000))})))
+	}
+	return t
+}
+func (g *gen) unixSeconds() time.Time {
 	switch g.r.Intn(8) {
 	case 0:
 		return time.Unix(0, 0).UTC()
@@ -188,7 +205,10 @@ func oracleC20(j *journal.Journal, e *journal.CsvExport) string {
 }
 
 func engineExport(ctx *engineCtx) {
-	g := &gen{r: ctx.rng}
+	g := &gen{r: ctx.rng, longLeft: 2}
+	if ctx.thorough {
+		g.longLeft = 5
+	}
 	n := 300
 	if ctx.thorough {
 		n = 6000
